@@ -97,18 +97,21 @@ Definition msg_ok (h : hdr) (items : list item) : bool :=
   | _ => false
   end.
 
-Definition run_case (fixed : bool) (bases : list bstr) (c : case) : bool :=
+(* 0: model and implementation agree; 1: car.Decode's result differs; 2: car.Decode agrees but
+   request/response.Decode's verdict (message or error) differs *)
+Definition run_case (fixed : bool) (bases : list bstr) (c : case) : N :=
   let arch := apply_mut (nth (N.to_nat (c_base c)) bases []) (c_mut c) in
   let orc := fun _ : bstr => match c_orc c with OOk r v _ => Some (r, v) | _ => None end in
   let res := car_decode (tbl_lookup arch (c_tbl c)) fixed orc arch in
-  hdr_eq (fst res) (c_hdr c) && items_eq (snd res) (c_items c)
-  (* what the model takes for canonical, go-ipld-cbor accepts and dumps to the same bytes *)
-  && implb (model_canon arch) (match c_orc c with OOk _ _ true => true | _ => false end)
-  && match c_msg c with
-     | 0 => true
-     | 1 => msg_ok (fst res) (snd res)
-     | _ => negb (msg_ok (fst res) (snd res))
-     end.
+  if negb (hdr_eq (fst res) (c_hdr c) && items_eq (snd res) (c_items c)
+           (* what the model takes for canonical, go-ipld-cbor accepts and dumps to the same bytes *)
+           && implb (model_canon arch) (match c_orc c with OOk _ _ true => true | _ => false end))
+  then 1
+  else if match c_msg c with
+          | 0 => true
+          | 1 => msg_ok (fst res) (snd res)
+          | _ => negb (msg_ok (fst res) (snd res))
+          end then 0 else 2.
 
 (* (roots, blocks, bytes car.Encode produced) *)
 Definition enc_case := (list bstr * list block * bstr)%type.
@@ -116,6 +119,13 @@ Definition enc_case := (list bstr * list block * bstr)%type.
 Definition run_enc (e : enc_case) : bool :=
   match e with (roots, blocks, bytes) => beq (car_encode roots blocks) bytes end.
 
-(* ids of disagreeing cases; encoder cases are numbered from 1000000 *)
+Fixpoint bad_codes {A} (f : A -> N) (l : list A) (i : N) : list N :=
+  match l with
+  | [] => []
+  | x :: l' => match f x with 0 => bad_codes f l' (i + 1) | k => (k * 1000000 + i) :: bad_codes f l' (i + 1) end
+  end.
+
+(* disagreeing cases: 1000000 + i = car.Decode on case i, 2000000 + i = message decoding on case i,
+   3000000 + i = car.Encode of archive i *)
 Definition check_all (fixed : bool) (encs : list enc_case) (cases : list case) : list N :=
-  bad_ids run_enc encs 1000000 ++ bad_ids (run_case fixed (map snd encs)) cases 0.
+  bad_ids run_enc encs 3000000 ++ bad_codes (run_case fixed (map snd encs)) cases 0.
